@@ -133,65 +133,132 @@ Proof.
     now rewrite IH.
 Qed.
 
+Lemma memz_removez_self c l : memz c (removez c l) = false.
+Proof.
+  unfold removez, memz. induction l as [|x l IH]; [reflexivity|]. cbn [filter].
+  destruct (x =? c) eqn:E; cbn [negb existsb]; [assumption|].
+  now rewrite (Z.eqb_sym c x), E, IH.
+Qed.
+
+Lemma memz_cons_other c d l : (d =? c) = false -> memz c (d :: l) = memz c l.
+Proof. intros E. unfold memz. cbn [existsb]. now rewrite (Z.eqb_sym c d), E. Qed.
+
+Lemma memz_cons_self c l : memz c (c :: l) = true.
+Proof. unfold memz. cbn [existsb]. now rewrite Z.eqb_refl. Qed.
+
+Lemma for_client_cons_other c c' m q : (c' =? c) = false -> for_client c ((c', m) :: q) = for_client c q.
+Proof. intros E. unfold for_client. cbn. now rewrite E. Qed.
+
+Lemma for_client_cons_self c m q : for_client c ((c, m) :: q) = m :: for_client c q.
+Proof. unfold for_client. cbn. now rewrite Z.eqb_refl. Qed.
+
+Lemma for_client_snoc_other c c' m q : (c' =? c) = false -> for_client c (q ++ [(c', m)]) = for_client c q.
+Proof. intros E. rewrite for_client_app, (for_client_cons_other c c' m [] E). apply app_nil_r. Qed.
+
+Lemma for_client_snoc_self c m q : for_client c (q ++ [(c, m)]) = for_client c q ++ [m].
+Proof. now rewrite for_client_app, for_client_cons_self. Qed.
+
+Lemma memz_removez_false c d l : memz c l = false -> memz c (removez d l) = false.
+Proof.
+  unfold removez, memz. induction l as [|x l IH]; [reflexivity|].
+  cbn [existsb filter]. intros H. apply orb_false_iff in H. destruct H as [H1 H2].
+  destruct (negb (x =? d)); cbn [existsb]; [rewrite H1|]; auto.
+Qed.
+
+
+Ltac fields := cbn [clients outbox queue closed failing delivered attempted].
+
+Lemma subseq_app_r {A} (a b x : list A) : subseq a b -> subseq a (b ++ x).
+Proof.
+  intros H. rewrite <- (app_nil_r a). apply subseq_app; [assumption|apply subseq_nil_l].
+Qed.
+
+Lemma att_snoc c s c' m b :
+  for_client c (map fst (attempted s ++ [((c', m), b)])) = att c s ++ (if c' =? c then [m] else []).
+Proof.
+  unfold att, attempts. rewrite map_app, for_client_app. f_equal.
+  unfold for_client. cbn. destruct (c' =? c); reflexivity.
+Qed.
+
+Lemma pending_cons c s c' m q :
+  queue s = (c', m) :: q ->
+  pending c s = (if c' =? c then [m] else []) ++ for_client c (q ++ outbox s).
+Proof.
+  intros Q. unfold pending, inflight. rewrite Q. cbn [app].
+  destruct (c' =? c) eqn:E; [apply Z.eqb_eq in E; subst; apply for_client_cons_self|].
+  now apply for_client_cons_other.
+Qed.
+
 (* --------------------------------------------------- the main invariant (T1) *)
 
 Definition Inv (c : Z) (s : state) (g : spec) : Prop :=
   filter (fun d => d =? c) (clients s) = (if sp_conn g then [c] else []) /\
   sp_used g = sp_conn g || memz c (closed s) /\
   (sp_conn g = true -> memz c (closed s) = false) /\
-  subseq (recv c s ++ pending c s) (sp_sent g).
+  att c s ++ pending c s = sp_sent g /\
+  subseq (recv c s) (att c s).
 
 Lemma Inv_memz c s g : Inv c s g -> memz c (clients s) = sp_conn g.
 Proof. intros [H _]. rewrite memz_filter, H. now destruct (sp_conn g). Qed.
 
 Lemma Inv_init c : Inv c init spec_init.
-Proof. repeat split; cbn; auto; try discriminate. constructor. Qed.
+Proof. repeat split; cbn; auto; try discriminate. apply sub_nil. Qed.
 
 Lemma Inv_step c s g x : Inv c s g -> Inv c (do_step s x) (spec_step c g x).
 Proof.
-  intros I. pose proof (Inv_memz _ _ _ I) as M. destruct I as (I1 & I2 & I3 & I4).
-  destruct x as [e ord|d|d|d|d|]; cbn [do_step spec_step].
+  intros I. pose proof (Inv_memz _ _ _ I) as M. destruct I as (I1 & I2 & I3 & I4 & I5).
+  destruct x as [e ord|d|d|d|d| |]; cbn [do_step spec_step].
   - (* Emit *)
-    unfold Inv, recv, pending in *. cbn [clients queue closed delivered].
-    rewrite for_client_app, for_client_map, (snapshot_count c ord _ _ I1).
+    unfold Inv, recv, att, attempts, pending, inflight in *. fields.
+    rewrite app_assoc, for_client_app, for_client_map, (snapshot_count c ord _ _ I1).
     destruct (sp_conn g) eqn:C; cbn [sp_conn sp_used sp_sent map].
-    + repeat split; auto; try congruence. rewrite app_assoc. now apply subseq_app_tail.
+    + repeat split; auto; try congruence. now rewrite app_assoc, I4.
     + rewrite C, app_nil_r. repeat split; auto; try congruence.
   - (* Connect *)
     destruct (d =? c) eqn:E.
     + apply Z.eqb_eq in E. subst d. rewrite M. rewrite <- I2.
       destruct (sp_used g) eqn:U; cbn [negb andb]; [repeat split; auto; try congruence|].
       symmetry in I2. apply orb_false_iff in I2. destruct I2 as [C K].
-      unfold Inv, recv, pending in *. cbn [clients queue closed delivered sp_conn sp_used sp_sent].
+      unfold Inv, recv, att, attempts, pending, inflight in *. fields. cbn [sp_conn sp_used sp_sent].
       rewrite C in I1. cbn [filter]. rewrite Z.eqb_refl, I1. repeat split; auto; try congruence.
     + cbn [andb]. destruct (memz d (clients s) || memz d (closed s)); [repeat split; auto; try congruence|].
-      unfold Inv, recv, pending in *. cbn [clients queue closed delivered filter]. rewrite E. repeat split; auto; try congruence.
+      unfold Inv, recv, att, attempts, pending, inflight in *. fields. cbn [filter]. rewrite E.
+      repeat split; auto; try congruence.
   - (* Disconnect *)
     destruct (d =? c) eqn:E.
     + apply Z.eqb_eq in E. subst d. rewrite M.
       destruct (sp_conn g) eqn:C; cbn [andb]; [|repeat split; auto; try congruence; now rewrite C].
-      unfold Inv, recv, pending in *. cbn. rewrite Z.eqb_refl.
+      unfold Inv, recv, att, attempts, pending, inflight in *. fields. cbn [sp_conn sp_used sp_sent].
+      rewrite memz_cons_self.
       split; [|repeat split; auto; try congruence; try discriminate].
       unfold removez. rewrite filter_comm, I1. cbn. now rewrite Z.eqb_refl.
     + cbn [andb]. destruct (memz d (clients s)); [|repeat split; auto; try congruence].
-      unfold Inv, recv, pending in *. cbn. rewrite (Z.eqb_sym c d), E. cbn.
+      unfold Inv, recv, att, attempts, pending, inflight in *. fields.
+      rewrite (memz_cons_other c d _ E).
       repeat split; auto; try congruence.
       unfold removez. rewrite filter_comm, I1.
       destruct (sp_conn g); cbn; [|reflexivity]. rewrite (Z.eqb_sym c d), E. reflexivity.
   - repeat split; auto; try congruence.
   - repeat split; auto; try congruence.
+  - (* HandOver *)
+    destruct (outbox s) as [|p o] eqn:O; [repeat split; auto; try congruence|].
+    unfold Inv, recv, att, attempts, pending, inflight in *. fields. rewrite O in I4.
+    rewrite <- app_assoc. cbn [app]. repeat split; auto; try congruence.
   - (* RunCallback *)
     destruct (queue s) as [|[c' m] q] eqn:Q; [repeat split; auto; try congruence|].
-    unfold Inv, recv, pending in *. rewrite Q in I4.
-    assert (P : for_client c ((c', m) :: q) = (if c' =? c then [m] else []) ++ for_client c q).
-    { unfold for_client. cbn. destruct (c' =? c); reflexivity. }
-    rewrite P in I4.
-    destruct (memz c' (closed s) || memz c' (failing s)); cbn [clients queue closed delivered].
-    + repeat split; auto; try congruence. eapply subseq_drop_middle; eauto.
-    + repeat split; auto; try congruence. rewrite for_client_app.
-      replace (for_client c [(c', m)]) with (if c' =? c then [m] else [])
-        by (unfold for_client; cbn; destruct (c' =? c); reflexivity).
-      now rewrite <- app_assoc.
+    rewrite (pending_cons c s c' m q Q) in I4.
+    destruct (memz c' (closed s) || memz c' (failing s));
+      unfold Inv; unfold recv, att, attempts, pending, inflight; fields;
+      rewrite att_snoc; fold (att c s); fold (recv c s).
+    + repeat split; auto; try congruence.
+      * now rewrite <- app_assoc.
+      * now apply subseq_app_r.
+    + repeat split; auto; try congruence.
+      * now rewrite <- app_assoc.
+      * rewrite for_client_app.
+        replace (for_client c [(c', m)]) with (if c' =? c then [m] else [])
+          by (unfold for_client; cbn; destruct (c' =? c); reflexivity).
+        apply subseq_app; [assumption|apply subseq_refl].
 Qed.
 
 Lemma Inv_run c l s g : Inv c s g -> Inv c (run_from s l) (spec_from c g l).
@@ -200,19 +267,73 @@ Proof.
   cbn. apply IH. now apply Inv_step.
 Qed.
 
+Lemma Inv_reach c l : Inv c (run l) (spec_from c spec_init l).
+Proof. apply (Inv_run c l init spec_init (Inv_init c)). Qed.
+
+(* T1 (liveness as safety): every event emitted while c was connected has had exactly one
+   write attempt on c, in emission order, or is still in flight - for EVERY client, faulty
+   or not, at every moment of every schedule *)
+Lemma attempted_exactly_once l c : att c (run l) ++ pending c (run l) = sent c l.
+Proof. now destruct (Inv_reach c l) as (_ & _ & _ & H & _). Qed.
+
+Lemma pending_idle c s : idle s = true -> pending c s = [].
+Proof.
+  unfold idle, pending, inflight. destruct (queue s); [|discriminate].
+  destruct (outbox s); [reflexivity|discriminate].
+Qed.
+
+(* ... and in a complete run (nothing in flight) every one of them HAS been attempted *)
+Lemma attempted_all_when_idle l c : idle (run l) = true -> att c (run l) = sent c l.
+Proof.
+  intros H. pose proof (attempted_exactly_once l c) as E.
+  now rewrite (pending_idle c _ H), app_nil_r in E.
+Qed.
+
+(* what c received are attempts (in order) *)
+Lemma recv_subseq_att l c : subseq (recv c (run l)) (att c (run l)).
+Proof. now destruct (Inv_reach c l) as (_ & _ & _ & _ & H). Qed.
+
 (* T1 (order, at most once): what c received is a subsequence of the events emitted while
    it was connected *)
 Lemma recv_subseq_sent l c : subseq (recv c (run l)) (sent c l).
 Proof.
-  destruct (Inv_run c l init spec_init (Inv_init c)) as (_ & _ & _ & H).
-  eapply subseq_prefix; eauto.
+  eapply subseq_trans; [apply recv_subseq_att|].
+  rewrite <- (attempted_exactly_once l c). rewrite <- (app_nil_r (att c (run l))) at 1.
+  apply subseq_app; [apply subseq_refl|apply subseq_nil_l].
 Qed.
+
+(* the successful attempts are exactly the deliveries; an attempt succeeds iff the
+   connection is open and the socket is not failing at that moment *)
+Lemma delivered_are_successful_attempts_from s l :
+  delivered s = map fst (filter snd (attempted s)) ->
+  delivered (run_from s l) = map fst (filter snd (attempted (run_from s l))).
+Proof.
+  revert s. induction l as [|x l IH]; intros s H; [assumption|].
+  change (run_from s (x :: l)) with (run_from (do_step s x) l). apply IH.
+  destruct x as [e ord|d|d|d|d| |]; cbn [do_step]; try assumption.
+  - destruct (memz d (clients s) || memz d (closed s)); assumption.
+  - destruct (memz d (clients s)); assumption.
+  - destruct (outbox s); assumption.
+  - destruct (queue s) as [|[c m] q]; [assumption|].
+    destruct (memz c (closed s) || memz c (failing s)); fields;
+      rewrite filter_app, map_app; cbn; rewrite H; [now rewrite app_nil_r|reflexivity].
+Qed.
+
+Lemma delivered_are_successful_attempts l :
+  delivered (run l) = map fst (filter snd (attempted (run l))).
+Proof. now apply delivered_are_successful_attempts_from. Qed.
+
+Lemma attempt_outcome s c m q :
+  queue s = (c, m) :: q ->
+  attempted (do_step s RunCallback)
+  = attempted s ++ [((c, m), negb (memz c (closed s) || memz c (failing s)))].
+Proof. intros Q. cbn [do_step]. rewrite Q. destruct (_ || _); reflexivity. Qed.
 
 Lemma sent_subseq_emitted_gen c l g acc :
   subseq (sp_sent g) acc -> subseq (sp_sent (spec_from c g l)) (acc ++ emitted l).
 Proof.
   revert g acc. induction l as [|x l IH]; intros g acc H; cbn; [now rewrite app_nil_r|].
-  destruct x as [e ord|d|d|d|d|]; cbn [spec_step emitted flat_map app];
+  destruct x as [e ord|d|d|d|d| |]; cbn [spec_step emitted flat_map app];
     try (apply IH; assumption).
   - change (acc ++ e :: flat_map (fun x => match x with Emit e0 _ => [e0] | _ => [] end) l)
       with (acc ++ [e] ++ emitted l). rewrite app_assoc. apply IH.
@@ -231,115 +352,170 @@ Proof. eapply subseq_trans; [apply recv_subseq_sent|apply sent_subseq_emitted]. 
 Lemma recv_nodup l c : NoDup (emitted l) -> NoDup (recv c (run l)).
 Proof. intros H. eapply subseq_NoDup; [apply recv_subseq_emitted|assumption]. Qed.
 
+
 (* ------------------------------------ healthy clients: nothing is ever lost *)
 
-Definition HInv (c : Z) (s : state) (g : spec) : Prop :=
-  Inv c s g /\ memz c (failing s) = false /\ memz c (closed s) = false /\
-  recv c s ++ pending c s = sp_sent g.
-
-Lemma HInv_init c : HInv c init spec_init.
-Proof. split; [apply Inv_init|]. repeat split; reflexivity. Qed.
-
-Lemma HInv_step c s g x :
-  is_fault_of c x = false -> HInv c s g -> HInv c (do_step s x) (spec_step c g x).
+(* one step that is not a fault of c, taken while c's socket works: every attempt made is a
+   delivery *)
+Lemma working_step c s x :
+  is_fault_of c x = false ->
+  memz c (failing s) = false -> memz c (closed s) = false ->
+  exists d,
+    att c (do_step s x) = att c s ++ d /\ recv c (do_step s x) = recv c s ++ d /\
+    memz c (failing (do_step s x)) = false /\ memz c (closed (do_step s x)) = false.
 Proof.
-  intros NF (I & F & C & E). split; [now apply Inv_step|].
-  pose proof (Inv_memz _ _ _ I) as M. destruct I as (I1 & I2 & I3 & I4).
-  destruct x as [e ord|d|d|d|d|]; cbn [do_step spec_step is_fault_of] in *.
-  - unfold recv, pending in *. cbn [clients queue closed failing delivered].
-    rewrite for_client_app, for_client_map, (snapshot_count c ord _ _ I1).
-    destruct (sp_conn g); cbn [sp_sent map]; repeat split; auto; try congruence.
-    + now rewrite app_assoc, E.
-    + now rewrite app_nil_r.
-  - destruct (memz d (clients s) || memz d (closed s)); destruct ((d =? c) && negb (sp_used g)); repeat split; auto; try congruence.
-  - rewrite NF. cbn [andb]. destruct (memz d (clients s)); repeat split; auto; try congruence.
-    cbn. now rewrite (Z.eqb_sym c d), NF.
-  - repeat split; auto; try congruence. cbn. now rewrite (Z.eqb_sym c d), NF.
-  - repeat split; auto; try congruence. cbn [failing]. rewrite memz_removez_other; [assumption|].
-    now rewrite Z.eqb_sym.
-  - destruct (queue s) as [|[c' m] q] eqn:Q; [repeat split; auto; try congruence|].
-    unfold recv, pending in *. rewrite Q in E.
-    assert (P : for_client c ((c', m) :: q) = (if c' =? c then [m] else []) ++ for_client c q).
-    { unfold for_client. cbn. destruct (c' =? c); reflexivity. }
-    rewrite P in E.
+  intros NF F C.
+  destruct x as [e ord|d|d|d|d| |]; cbn [do_step is_fault_of] in *.
+  - exists []. rewrite !app_nil_r. repeat split; auto.
+  - exists []. rewrite !app_nil_r. destruct (memz d (clients s) || memz d (closed s)); repeat split; auto.
+  - exists []. rewrite !app_nil_r. destruct (memz d (clients s)); repeat split; auto.
+    fields. now rewrite memz_cons_other.
+  - exists []. rewrite !app_nil_r. repeat split; auto. fields. now rewrite memz_cons_other.
+  - exists []. rewrite !app_nil_r. repeat split; auto. fields.
+    rewrite memz_removez_other; [assumption|]. now rewrite Z.eqb_sym.
+  - exists []. rewrite !app_nil_r. destruct (outbox s); repeat split; auto.
+  - destruct (queue s) as [|[c' m] q] eqn:Q; [exists []; rewrite !app_nil_r; repeat split; auto|].
+    exists (if c' =? c then [m] else []).
     destruct (c' =? c) eqn:EC.
-    + apply Z.eqb_eq in EC. subst c'. rewrite C, F. cbn [orb clients queue closed failing delivered].
-      repeat split; auto; try congruence. rewrite for_client_app. unfold for_client at 2. cbn. rewrite Z.eqb_refl. cbn.
-      now rewrite <- app_assoc.
-    + destruct (memz c' (closed s) || memz c' (failing s)); cbn [clients queue closed failing delivered]; repeat split; auto; try congruence.
-      rewrite for_client_app. unfold for_client at 2. cbn. rewrite EC. cbn. now rewrite app_nil_r.
+    + apply Z.eqb_eq in EC. subst c'. rewrite C, F. cbn [orb].
+      unfold att, attempts, recv. fields. rewrite att_snoc, Z.eqb_refl, for_client_snoc_self.
+      repeat split; auto.
+    + destruct (memz c' (closed s) || memz c' (failing s));
+        unfold att, attempts, recv; fields; rewrite att_snoc, EC, ?app_nil_r;
+        [repeat split; auto|].
+      rewrite (for_client_snoc_other c c' m _ EC). repeat split; auto.
 Qed.
 
-Lemma HInv_run c l s g :
-  no_faults c l = true -> HInv c s g -> HInv c (run_from s l) (spec_from c g l).
+Lemma working_run c l s :
+  no_faults c l = true -> memz c (failing s) = false -> memz c (closed s) = false ->
+  exists d, att c (run_from s l) = att c s ++ d /\ recv c (run_from s l) = recv c s ++ d /\
+            memz c (failing (run_from s l)) = false /\ memz c (closed (run_from s l)) = false.
 Proof.
-  revert s g. induction l as [|x l IH]; intros s g NF H; [assumption|].
-  cbn in NF. apply andb_true_iff in NF. destruct NF as [N1 N2]. apply negb_true_iff in N1.
-  cbn. apply IH; [assumption|]. now apply HInv_step.
+  revert s. induction l as [|x l IH]; intros s NF F C.
+  - exists []. rewrite !app_nil_r. repeat split; auto.
+  - cbn in NF. apply andb_true_iff in NF. destruct NF as [N1 N2]. apply negb_true_iff in N1.
+    destruct (working_step c s x N1 F C) as (d & E1 & E2 & F' & C').
+    destruct (IH _ N2 F' C') as (d' & E3 & E4 & F'' & C'').
+    exists (d ++ d'). change (run_from s (x :: l)) with (run_from (do_step s x) l).
+    rewrite E3, E1, E4, E2, !app_assoc. repeat split; auto.
 Qed.
 
-(* at every moment, received ++ still queued = everything sent to a healthy client *)
+(* a client without any fault has received every attempt *)
+Lemma healthy_recv_att l c : no_faults c l = true -> recv c (run l) = att c (run l).
+Proof.
+  intros NF. destruct (working_run c l init NF eq_refl eq_refl) as (d & E1 & E2 & _).
+  cbn in E1, E2. unfold run. now rewrite E1, E2.
+Qed.
+
+(* at every moment, received ++ still in flight = everything sent to a healthy client *)
 Lemma healthy_nothing_lost l c :
   no_faults c l = true -> recv c (run l) ++ pending c (run l) = sent c l.
-Proof. intros NF. now destruct (HInv_run c l init spec_init NF (HInv_init c)) as (_ & _ & _ & H). Qed.
+Proof. intros NF. rewrite (healthy_recv_att l c NF). apply attempted_exactly_once. Qed.
 
-(* T1 (all of them): once the loop has drained, a healthy client has received exactly the
-   events emitted while it was connected *)
+(* T1 (all of them): in a complete run a healthy client has received exactly the events
+   emitted while it was connected *)
 Lemma healthy_complete l c :
-  no_faults c l = true -> queue (run l) = [] -> recv c (run l) = sent c l.
-Proof.
-  intros NF Q. pose proof (healthy_nothing_lost l c NF) as H.
-  unfold pending in H. rewrite Q in H. cbn in H. now rewrite app_nil_r in H.
-Qed.
+  no_faults c l = true -> idle (run l) = true -> recv c (run l) = sent c l.
+Proof. intros NF Q. rewrite (healthy_recv_att l c NF). now apply attempted_all_when_idle. Qed.
 
-(* draining: run as many callbacks as are queued *)
-Definition drain_steps (s : state) : list step := repeat RunCallback (length (queue s)).
+(* draining: the actor hands everything over, then the loop runs everything *)
+Definition drain_steps (s : state) : list step :=
+  repeat HandOver (length (outbox s)) ++ repeat RunCallback (length (queue s) + length (outbox s)).
 Definition drained_run (l : list step) : state := run (l ++ drain_steps (run l)).
 
-Lemma run_callbacks_empty n s : (length (queue s) <= n)%nat -> queue (run_from s (repeat RunCallback n)) = [].
-Proof.
-  revert s. induction n as [|n IH]; intros s H; cbn.
-  - destruct (queue s); [reflexivity|cbn in H; lia].
-  - apply IH. cbn. destruct (queue s) as [|[c m] q] eqn:Q; [rewrite Q; cbn; lia|].
-    cbn in H. destruct (_ || _); cbn; lia.
-Qed.
+Lemma run_from_app s l1 l2 : run_from s (l1 ++ l2) = run_from (run_from s l1) l2.
+Proof. unfold run_from. apply fold_left_app. Qed.
 
 Lemma run_app l1 l2 : run (l1 ++ l2) = run_from (run l1) l2.
-Proof. unfold run, run_from. apply fold_left_app. Qed.
+Proof. apply run_from_app. Qed.
 
-Lemma drained_queue l : queue (drained_run l) = [].
-Proof. unfold drained_run, drain_steps. rewrite run_app. now apply run_callbacks_empty. Qed.
+Lemma handovers_empty n s :
+  (length (outbox s) <= n)%nat ->
+  outbox (run_from s (repeat HandOver n)) = [] /\
+  length (queue (run_from s (repeat HandOver n))) = (length (queue s) + length (outbox s))%nat.
+Proof.
+  revert s. induction n as [|n IH]; intros s H; cbn [repeat].
+  - change (run_from s []) with s.
+    destruct (outbox s) eqn:O; [split; [reflexivity|cbn; lia]|cbn in H; lia].
+  - change (run_from s (HandOver :: repeat HandOver n)) with (run_from (do_step s HandOver) (repeat HandOver n)).
+    cbn [do_step]. destruct (outbox s) as [|p o] eqn:O.
+    + destruct (IH s) as [A B]; [rewrite O; cbn; lia|]. rewrite O in B. split; assumption.
+    + destruct (IH (mkState (clients s) o (queue s ++ [p]) (closed s) (failing s) (delivered s) (attempted s)))
+        as [A B]; [cbn in *; lia|]. split; [assumption|].
+      rewrite B. fields. rewrite app_length. cbn. lia.
+Qed.
+
+Lemma run_callbacks_empty n s :
+  outbox s = [] -> (length (queue s) <= n)%nat ->
+  queue (run_from s (repeat RunCallback n)) = [] /\ outbox (run_from s (repeat RunCallback n)) = [].
+Proof.
+  revert s. induction n as [|n IH]; intros s O H; cbn [repeat].
+  - change (run_from s []) with s.
+    destruct (queue s) eqn:Q; [split; [reflexivity|assumption]|cbn in H; lia].
+  - change (run_from s (RunCallback :: repeat RunCallback n)) with (run_from (do_step s RunCallback) (repeat RunCallback n)).
+    apply IH; cbn [do_step]; destruct (queue s) as [|[c m] q] eqn:Q; try assumption.
+    + destruct (_ || _); assumption.
+    + rewrite Q. cbn. lia.
+    + cbn in H. destruct (_ || _); cbn; lia.
+Qed.
+
+Lemma drained_idle l : idle (drained_run l) = true.
+Proof.
+  unfold drained_run, drain_steps. rewrite run_app, run_from_app.
+  destruct (handovers_empty (length (outbox (run l))) (run l) (le_n _)) as [A B].
+  destruct (run_callbacks_empty (length (queue (run l)) + length (outbox (run l)))
+              (run_from (run l) (repeat HandOver (length (outbox (run l))))) A) as [C D];
+    [rewrite B; lia|].
+  unfold idle. now rewrite C, D.
+Qed.
 
 Lemma spec_from_app c g l1 l2 : spec_from c g (l1 ++ l2) = spec_from c (spec_from c g l1) l2.
 Proof. unfold spec_from. apply fold_left_app. Qed.
 
-Lemma spec_from_callbacks c g n : spec_from c g (repeat RunCallback n) = g.
-Proof. induction n; cbn; auto. Qed.
-
-Lemma sent_drain c l n : sent c (l ++ repeat RunCallback n) = sent c l.
-Proof. unfold sent. now rewrite spec_from_app, spec_from_callbacks. Qed.
-
-Lemma no_faults_drain c l n : no_faults c (l ++ repeat RunCallback n) = no_faults c l.
+Lemma spec_from_drain c g n m : spec_from c g (repeat HandOver n ++ repeat RunCallback m) = g.
 Proof.
-  unfold no_faults. rewrite forallb_app.
-  assert (forallb (fun x => negb (is_fault_of c x)) (repeat RunCallback n) = true) as ->
+  rewrite spec_from_app.
+  assert (H1 : forall g k, spec_from c g (repeat HandOver k) = g) by (intros g0 k; induction k; cbn; auto).
+  assert (H2 : forall g k, spec_from c g (repeat RunCallback k) = g) by (intros g0 k; induction k; cbn; auto).
+  now rewrite H1, H2.
+Qed.
+
+Lemma sent_drain c l n m : sent c (l ++ repeat HandOver n ++ repeat RunCallback m) = sent c l.
+Proof. unfold sent. now rewrite spec_from_app, spec_from_drain. Qed.
+
+Lemma no_faults_drain c l n m :
+  no_faults c (l ++ repeat HandOver n ++ repeat RunCallback m) = no_faults c l.
+Proof.
+  unfold no_faults. rewrite !forallb_app.
+  assert (forallb (fun x => negb (is_fault_of c x)) (repeat HandOver n) = true) as ->
     by (induction n; cbn; auto).
-  apply andb_true_r.
+  assert (forallb (fun x => negb (is_fault_of c x)) (repeat RunCallback m) = true) as ->
+    by (induction m; cbn; auto).
+  now rewrite !andb_true_r.
 Qed.
 
 Lemma healthy_complete_drained l c :
   no_faults c l = true -> recv c (drained_run l) = sent c l.
 Proof.
   intros NF. unfold drained_run, drain_steps.
-  rewrite <- (sent_drain c l (length (queue (run l)))).
-  apply healthy_complete; [now rewrite no_faults_drain|apply drained_queue].
+  rewrite <- (sent_drain c l (length (outbox (run l))) (length (queue (run l)) + length (outbox (run l)))).
+  apply healthy_complete; [now rewrite no_faults_drain|apply drained_idle].
+Qed.
+
+(* every event emitted while c was connected has been attempted on c exactly once, in order,
+   once the run is complete - whatever c's own faults *)
+Lemma attempted_all_drained l c : att c (drained_run l) = sent c l.
+Proof.
+  unfold drained_run, drain_steps.
+  rewrite <- (sent_drain c l (length (outbox (run l))) (length (queue (run l)) + length (outbox (run l)))).
+  apply attempted_all_when_idle. apply drained_idle.
 Qed.
 
 (* ---------------------------------------------------------- T2 isolation *)
 
 Lemma spec_step_other_fault c g x : is_fault_of_other c x = true -> spec_step c g x = g.
 Proof.
-  destruct x as [e ord|d|d|d|d|]; cbn; try discriminate; auto.
+  destruct x as [e ord|d|d|d|d| |]; cbn; try discriminate; auto.
   intros H. apply negb_true_iff in H. now rewrite H.
 Qed.
 
@@ -362,6 +538,8 @@ Qed.
 
 (* erasing the disconnects / socket failures / recoveries of the other clients changes
    nothing for a healthy client c once the loop has drained ... *)
+(* erasing the disconnects / socket failures / recoveries of the other clients changes
+   nothing for a healthy client c once the run is complete ... *)
 Lemma isolation l c :
   no_faults c l = true ->
   recv c (drained_run l) = recv c (drained_run (erase_other_faults c l)).
@@ -384,7 +562,7 @@ Qed.
 (* the reference sequence of c depends on no step of any other client *)
 Lemma spec_step_unconcerned c g x : concerns c x = false -> spec_step c g x = g.
 Proof.
-  destruct x as [e ord|d|d|d|d|]; cbn; try discriminate; auto; intros ->; reflexivity.
+  destruct x as [e ord|d|d|d|d| |]; cbn; try discriminate; auto; intros ->; reflexivity.
 Qed.
 
 Lemma sent_only_own_steps c l : sent c (filter (concerns c) l) = sent c l.
@@ -399,21 +577,23 @@ Qed.
 
 Lemma closed_mono c s x : memz c (closed s) = true -> memz c (closed (do_step s x)) = true.
 Proof.
-  intros H. destruct x as [e ord|d|d|d|d|]; cbn; auto.
+  intros H. destruct x as [e ord|d|d|d|d| |]; cbn [do_step]; auto.
   - destruct (_ || _); auto.
-  - destruct (memz d (clients s)); auto. cbn [closed]. unfold memz in *. cbn [existsb].
+  - destruct (memz d (clients s)); auto. fields. unfold memz in *. cbn [existsb].
     now rewrite H, orb_true_r.
+  - destruct (outbox s); auto.
   - destruct (queue s) as [|[c' m] q]; auto. destruct (_ || _); auto.
 Qed.
 
 Lemma closed_recv_step c s x : memz c (closed s) = true -> recv c (do_step s x) = recv c s.
 Proof.
-  intros H. destruct x as [e ord|d|d|d|d|]; cbn; auto.
+  intros H. destruct x as [e ord|d|d|d|d| |]; cbn [do_step]; auto.
   - destruct (_ || _); auto.
   - destruct (memz d (clients s)); auto.
+  - destruct (outbox s); auto.
   - destruct (queue s) as [|[c' m] q]; auto.
     destruct (memz c' (closed s) || memz c' (failing s)) eqn:E; auto.
-    unfold recv. cbn [delivered]. rewrite for_client_app.
+    unfold recv. fields. rewrite for_client_app.
     destruct (c' =? c) eqn:EC.
     + apply Z.eqb_eq in EC. subst c'. rewrite H in E. discriminate.
     + unfold for_client at 2. cbn. rewrite EC. cbn. apply app_nil_r.
@@ -430,30 +610,25 @@ Lemma nothing_after_disconnect l1 l2 c :
   memz c (clients (run l1)) = true ->
   recv c (run (l1 ++ Disconnect c :: l2)) = recv c (run l1).
 Proof.
-  intros H. rewrite run_app. cbn [run_from fold_left do_step]. rewrite H.
-  fold (run_from (mkState (removez c (clients (run l1))) (queue (run l1)) (c :: closed (run l1))
-                          (failing (run l1)) (delivered (run l1))) l2).
-  rewrite closed_recv_run; [reflexivity|]. cbn. now rewrite Z.eqb_refl.
+  intros H. rewrite run_app.
+  change (run_from (run l1) (Disconnect c :: l2)) with (run_from (do_step (run l1) (Disconnect c)) l2).
+  rewrite closed_recv_run.
+  - cbn [do_step]. now rewrite H.
+  - cbn [do_step]. rewrite H. fields. apply memz_cons_self.
 Qed.
 
 (* a disconnected client is never a broadcast target again *)
-Lemma memz_removez_false c d l : memz c l = false -> memz c (removez d l) = false.
-Proof.
-  unfold removez, memz. induction l as [|x l IH]; [reflexivity|].
-  cbn [existsb filter]. intros H. apply orb_false_iff in H. destruct H as [H1 H2].
-  destruct (negb (x =? d)); cbn [existsb]; [rewrite H1|]; auto.
-Qed.
-
 Lemma closed_not_client_step c s x :
   memz c (closed s) = true -> memz c (clients s) = false ->
   memz c (clients (do_step s x)) = false.
 Proof.
-  intros H N. destruct x as [e ord|d|d|d|d|]; cbn [do_step]; auto.
+  intros H N. destruct x as [e ord|d|d|d|d| |]; cbn [do_step]; auto.
   - destruct (memz d (clients s) || memz d (closed s)) eqn:E; auto.
-    cbn [clients]. unfold memz in *. cbn [existsb]. rewrite N, orb_false_r.
+    fields. unfold memz in *. cbn [existsb]. rewrite N, orb_false_r.
     destruct (c =? d) eqn:EC; [|reflexivity].
     apply Z.eqb_eq in EC. subst d. rewrite H, orb_true_r in E. discriminate.
-  - destruct (memz d (clients s)); auto. cbn [clients]. now apply memz_removez_false.
+  - destruct (memz d (clients s)); auto. fields. now apply memz_removez_false.
+  - destruct (outbox s); auto.
   - destruct (queue s) as [|[c' m] q]; auto.
     destruct (memz c' (closed s) || memz c' (failing s)); auto.
 Qed.
@@ -519,77 +694,51 @@ End MessageProofs.
 
 (* ------------------------------------------- the view of a single client *)
 
-Lemma memz_removez_self c l : memz c (removez c l) = false.
-Proof.
-  unfold removez, memz. induction l as [|x l IH]; [reflexivity|]. cbn [filter].
-  destruct (x =? c) eqn:E; cbn [negb existsb]; [assumption|].
-  now rewrite (Z.eqb_sym c x), E, IH.
-Qed.
-
-Lemma memz_cons_other c d l : (d =? c) = false -> memz c (d :: l) = memz c l.
-Proof. intros E. unfold memz. cbn [existsb]. now rewrite (Z.eqb_sym c d), E. Qed.
-
-Lemma memz_cons_self c l : memz c (c :: l) = true.
-Proof. unfold memz. cbn [existsb]. now rewrite Z.eqb_refl. Qed.
-
-Lemma for_client_cons_other c c' m q : (c' =? c) = false -> for_client c ((c', m) :: q) = for_client c q.
-Proof. intros E. unfold for_client. cbn. now rewrite E. Qed.
-
-Lemma for_client_cons_self c m q : for_client c ((c, m) :: q) = m :: for_client c q.
-Proof. unfold for_client. cbn. now rewrite Z.eqb_refl. Qed.
-
-Lemma for_client_snoc_other c c' m q : (c' =? c) = false -> for_client c (q ++ [(c', m)]) = for_client c q.
-Proof. intros E. rewrite for_client_app, (for_client_cons_other c c' m [] E). apply app_nil_r. Qed.
-
-Lemma for_client_snoc_self c m q : for_client c (q ++ [(c, m)]) = for_client c q ++ [m].
-Proof. now rewrite for_client_app, for_client_cons_self. Qed.
-
 Lemma view_step c s g x : Inv c s g -> view c (do_step s x) = l_run (view c s) (proj c s x).
 Proof.
   intros I. pose proof (Inv_memz _ _ _ I) as M. destruct I as (I1 & _).
-  destruct x as [e ord|d|d|d|d|]; cbn [do_step proj].
-  - unfold view, pending, recv. cbn [clients queue closed failing delivered l_run fold_left l_do l_conn].
-    rewrite for_client_app, for_client_map, (snapshot_count c ord _ _ I1), M.
+  destruct x as [e ord|d|d|d|d| |]; cbn [do_step proj].
+  - unfold view, pending, inflight, recv. fields. cbn [l_run fold_left l_do l_conn].
+    rewrite app_assoc, for_client_app, for_client_map, (snapshot_count c ord _ _ I1), M.
     destruct (sp_conn g); cbn [map]; [reflexivity|now rewrite app_nil_r].
   - destruct (d =? c) eqn:E.
     + apply Z.eqb_eq in E. subst d. cbn [l_run fold_left l_do view l_conn l_closed].
       destruct (memz c (clients s) || memz c (closed s)); [reflexivity|].
-      unfold view, pending, recv. cbn [clients queue closed failing delivered]. now rewrite memz_cons_self.
+      unfold view, pending, inflight, recv. fields. now rewrite memz_cons_self.
     + cbn [l_run fold_left]. destruct (memz d (clients s) || memz d (closed s)); [reflexivity|].
-      unfold view, pending, recv. cbn [clients queue closed failing delivered]. now rewrite memz_cons_other.
+      unfold view, pending, inflight, recv. fields. now rewrite memz_cons_other.
   - destruct (d =? c) eqn:E.
     + apply Z.eqb_eq in E. subst d. cbn [l_run fold_left l_do view l_conn].
       destruct (memz c (clients s)); [|reflexivity].
-      unfold view, pending, recv. cbn [clients queue closed failing delivered].
+      unfold view, pending, inflight, recv. fields.
       now rewrite memz_removez_self, memz_cons_self.
     + cbn [l_run fold_left]. destruct (memz d (clients s)); [|reflexivity].
-      unfold view, pending, recv. cbn [clients queue closed failing delivered].
+      unfold view, pending, inflight, recv. fields.
       rewrite memz_cons_other by assumption. rewrite memz_removez_other; [reflexivity|].
       now rewrite Z.eqb_sym.
   - destruct (d =? c) eqn:E.
-    + apply Z.eqb_eq in E. subst d. unfold view, pending, recv.
-      cbn [clients queue closed failing delivered l_run fold_left l_do l_conn l_closed l_queue l_recv].
-      now rewrite memz_cons_self.
-    + unfold view, pending, recv. cbn [clients queue closed failing delivered l_run fold_left].
-      now rewrite memz_cons_other.
+    + apply Z.eqb_eq in E. subst d. unfold view, pending, inflight, recv. fields.
+      cbn [l_run fold_left l_do l_conn l_closed l_queue l_recv]. now rewrite memz_cons_self.
+    + unfold view, pending, inflight, recv. fields. cbn [l_run fold_left]. now rewrite memz_cons_other.
   - destruct (d =? c) eqn:E.
-    + apply Z.eqb_eq in E. subst d. unfold view, pending, recv.
-      cbn [clients queue closed failing delivered l_run fold_left l_do l_conn l_closed l_queue l_recv].
-      now rewrite memz_removez_self.
-    + unfold view, pending, recv. cbn [clients queue closed failing delivered l_run fold_left].
+    + apply Z.eqb_eq in E. subst d. unfold view, pending, inflight, recv. fields.
+      cbn [l_run fold_left l_do l_conn l_closed l_queue l_recv]. now rewrite memz_removez_self.
+    + unfold view, pending, inflight, recv. fields. cbn [l_run fold_left].
       rewrite memz_removez_other; [reflexivity|]. now rewrite Z.eqb_sym.
+  - (* HandOver: nothing changes for any client *)
+    cbn [l_run fold_left]. destruct (outbox s) as [|p o] eqn:O; [reflexivity|].
+    unfold view, pending, inflight, recv. fields. rewrite O, <- app_assoc. reflexivity.
   - destruct (queue s) as [|[c' m] q] eqn:Q; [reflexivity|].
     destruct (c' =? c) eqn:E.
     + apply Z.eqb_eq in E. subst c'.
       cbn [l_run fold_left l_do view l_queue l_closed l_failing l_conn l_recv].
-      unfold pending at 1. rewrite Q, for_client_cons_self.
+      rewrite (pending_cons c s c m q Q), Z.eqb_refl. cbn [app].
       destruct (memz c (closed s) || memz c (failing s));
-        unfold view, pending, recv; cbn [clients queue closed failing delivered];
+        unfold view, pending, inflight, recv; fields;
         [reflexivity|now rewrite for_client_snoc_self].
-    + cbn [l_run fold_left].
+    + cbn [l_run fold_left]. unfold view. rewrite (pending_cons c s c' m q Q), E. cbn [app].
       destruct (memz c' (closed s) || memz c' (failing s));
-        unfold view, pending, recv; cbn [clients queue closed failing delivered];
-        rewrite Q, (for_client_cons_other c c' m q E); [reflexivity|].
+        unfold pending, inflight, recv; fields; [reflexivity|].
       now rewrite (for_client_snoc_other c c' m _ E).
 Qed.
 
@@ -617,82 +766,42 @@ Proof.
   now rewrite !view_refines, H.
 Qed.
 
-(* no step of another client ever appears in c's projection, other than through the
-   instants at which c's own callbacks run *)
 Lemma proj_other_fault c s x : is_fault_of_other c x = true -> proj c s x = [].
 Proof.
-  destruct x as [e ord|d|d|d|d|]; cbn; try discriminate; intros H;
+  destruct x as [e ord|d|d|d|d| |]; cbn; try discriminate; intros H;
     apply negb_true_iff in H; now rewrite H.
 Qed.
 
 (* ----------------------- completeness from any point where the socket works *)
 
-(* one step that is not a fault of c, taken while c's socket works: what c has received or
-   has queued grows exactly by what the specification says was sent to it *)
-Lemma working_step c s g x :
-  Inv c s g -> is_fault_of c x = false ->
-  memz c (failing s) = false -> memz c (closed s) = false ->
-  exists d,
-    recv c (do_step s x) ++ pending c (do_step s x) = (recv c s ++ pending c s) ++ d /\
-    sp_sent (spec_step c g x) = sp_sent g ++ d /\
-    memz c (failing (do_step s x)) = false /\ memz c (closed (do_step s x)) = false /\
-    (sp_conn g = true ->
-       sp_conn (spec_step c g x) = true /\
-       d = match x with Emit e _ => [e] | _ => [] end).
+Lemma spec_sent_extends c l g : exists new, sp_sent (spec_from c g l) = sp_sent g ++ new.
 Proof.
-  intros I NF F C. pose proof (Inv_memz _ _ _ I) as M. destruct I as (I1 & I2 & I3 & I4).
-  destruct x as [e ord|d|d|d|d|]; cbn [do_step spec_step is_fault_of] in *.
-  - unfold recv, pending. cbn [clients queue closed failing delivered].
-    rewrite for_client_app, for_client_map, (snapshot_count c ord _ _ I1).
-    destruct (sp_conn g) eqn:SC; cbn [sp_sent sp_conn map].
-    + exists [e]. repeat split; auto. now rewrite app_assoc.
-    + exists []. rewrite !app_nil_r. repeat split; auto; discriminate.
-  - exists []. rewrite !app_nil_r.
-    destruct (memz d (clients s) || memz d (closed s)); destruct ((d =? c) && negb (sp_used g)) eqn:E;
-      cbn [sp_sent sp_conn]; repeat split; auto.
-  - exists []. rewrite !app_nil_r. rewrite NF. cbn [andb].
-    destruct (memz d (clients s)); repeat split; auto.
-    cbn [closed]. now rewrite memz_cons_other.
-  - exists []. rewrite !app_nil_r. repeat split; auto. cbn [failing]. now rewrite memz_cons_other.
-  - exists []. rewrite !app_nil_r. repeat split; auto. cbn [failing].
-    rewrite memz_removez_other; [assumption|]. now rewrite Z.eqb_sym.
-  - exists []. rewrite !app_nil_r.
-    destruct (queue s) as [|[c' m] q] eqn:Q; [repeat split; auto|].
-    unfold recv, pending. rewrite Q.
-    destruct (c' =? c) eqn:EC.
-    + apply Z.eqb_eq in EC. subst c'. rewrite C, F.
-      cbn [orb clients queue closed failing delivered].
-      rewrite for_client_cons_self, for_client_snoc_self, <- app_assoc. repeat split; auto.
-    + destruct (memz c' (closed s) || memz c' (failing s));
-        cbn [clients queue closed failing delivered];
-        rewrite (for_client_cons_other c c' m q EC); [repeat split; auto|].
-      rewrite (for_client_snoc_other c c' m _ EC). repeat split; auto.
+  revert g. induction l as [|x l IH]; intros g; [exists []; now rewrite app_nil_r|].
+  change (spec_from c g (x :: l)) with (spec_from c (spec_step c g x) l).
+  destruct (IH (spec_step c g x)) as (n & E). rewrite E.
+  destruct x as [e ord|d|d|d|d| |]; cbn [spec_step]; try (now exists n).
+  - destruct (sp_conn g); cbn [sp_sent]; [exists ([e] ++ n); now rewrite app_assoc|now exists n].
+  - destruct (_ && _); cbn [sp_sent]; now exists n.
+  - destruct (_ && _); cbn [sp_sent]; now exists n.
 Qed.
 
-Lemma working_run c l s g :
-  Inv c s g -> no_faults c l = true ->
-  memz c (failing s) = false -> memz c (closed s) = false ->
-  exists new,
-    recv c (run_from s l) ++ pending c (run_from s l) = (recv c s ++ pending c s) ++ new /\
-    sp_sent (spec_from c g l) = sp_sent g ++ new /\
-    (sp_conn g = true -> new = emitted l).
+Lemma spec_conn_no_faults c l g :
+  sp_conn g = true -> no_faults c l = true ->
+  sp_sent (spec_from c g l) = sp_sent g ++ emitted l.
 Proof.
-  revert s g. induction l as [|x l IH]; intros s g I NF F C.
-  - exists []. rewrite !app_nil_r. repeat split; auto.
-  - cbn in NF. apply andb_true_iff in NF. destruct NF as [N1 N2]. apply negb_true_iff in N1.
-    destruct (working_step c s g x I N1 F C) as (d & E1 & E2 & F' & C' & K).
-    destruct (IH _ _ (Inv_step c s g x I) N2 F' C') as (new & E3 & E4 & K').
-    exists (d ++ new).
-    change (run_from s (x :: l)) with (run_from (do_step s x) l).
-    change (spec_from c g (x :: l)) with (spec_from c (spec_step c g x) l).
-    rewrite E3, E1, E4, E2, !app_assoc. repeat split; auto.
-    intros SC. destruct (K SC) as [SC' ->]. rewrite (K' SC').
-    destruct x; reflexivity.
+  revert g. induction l as [|x l IH]; intros g C NF; [now rewrite app_nil_r|].
+  cbn in NF. apply andb_true_iff in NF. destruct NF as [N1 N2]. apply negb_true_iff in N1.
+  change (spec_from c g (x :: l)) with (spec_from c (spec_step c g x) l).
+  destruct x as [e ord|d|d|d|d| |]; cbn [spec_step is_fault_of emitted flat_map app] in *;
+    try (now apply IH).
+  - rewrite C. rewrite IH; auto. cbn [sp_sent]. now rewrite <- app_assoc.
+  - destruct ((d =? c) && negb (sp_used g)); [rewrite IH; auto|now apply IH].
+  - rewrite N1. cbn [andb]. now apply IH.
 Qed.
 
 (* T1, from any point on: if after l1 the socket of c works (not failing, not closed) and l2
-   contains no fault step of c, nothing sent to c during l2 - nor anything still queued for it
-   - is lost; a connected c gets every event emitted in l2 *)
+   contains no fault step of c, nothing sent to c during l2 - nor anything still in flight
+   to it - is lost; a connected c gets every event emitted in l2 *)
 Lemma working_nothing_lost l1 l2 c :
   memz c (failing (run l1)) = false -> memz c (closed (run l1)) = false ->
   no_faults c l2 = true ->
@@ -703,28 +812,37 @@ Lemma working_nothing_lost l1 l2 c :
     (memz c (clients (run l1)) = true -> new = emitted l2).
 Proof.
   intros F C NF.
-  pose proof (Inv_run c l1 init spec_init (Inv_init c)) as I.
-  destruct (working_run c l2 _ _ I NF F C) as (new & E1 & E2 & K).
-  exists new. rewrite run_app. unfold sent. rewrite spec_from_app. repeat split; auto.
-  intros M. apply K. now rewrite <- (Inv_memz _ _ _ I).
+  destruct (working_run c l2 (run l1) NF F C) as (d & E1 & E2 & _).
+  destruct (spec_sent_extends c l2 (spec_from c spec_init l1)) as (new & EN).
+  exists new.
+  assert (S2 : sent c (l1 ++ l2) = sent c l1 ++ new) by (unfold sent; now rewrite spec_from_app).
+  pose proof (attempted_exactly_once (l1 ++ l2) c) as A2.
+  pose proof (attempted_exactly_once l1 c) as A1.
+  rewrite run_app in *. rewrite E1, S2, <- A1, <- !app_assoc in A2. apply app_inv_head in A2.
+  repeat split; auto.
+  - now rewrite E2, <- !app_assoc, A2.
+  - intros M. unfold sent in EN.
+    rewrite spec_conn_no_faults in EN; auto.
+    + now apply app_inv_head in EN.
+    + now rewrite <- (Inv_memz _ _ _ (Inv_reach c l1)).
 Qed.
 
 (* in particular after a recovery: SocketFails ... SocketRecovers c, c still connected *)
 Lemma recovered_complete l1 l2 c :
   memz c (clients (run l1)) = true -> no_faults c l2 = true ->
-  queue (run (l1 ++ SocketRecovers c :: l2)) = [] ->
+  idle (run (l1 ++ SocketRecovers c :: l2)) = true ->
   exists before, recv c (run (l1 ++ SocketRecovers c :: l2)) = before ++ emitted l2.
 Proof.
   intros M NF Q.
-  pose proof (Inv_run c l1 init spec_init (Inv_init c)) as I.
+  pose proof (Inv_reach c l1) as I.
   assert (C : memz c (closed (run l1)) = false).
-  { destruct I as (_ & _ & I3 & _). apply I3. now rewrite <- (Inv_memz _ _ _ (Inv_run c l1 init spec_init (Inv_init c))). }
+  { destruct I as (_ & _ & I3 & _). apply I3. now rewrite <- (Inv_memz _ _ _ (Inv_reach c l1)). }
   replace (l1 ++ SocketRecovers c :: l2) with ((l1 ++ [SocketRecovers c]) ++ l2) in *
     by now rewrite <- app_assoc.
   destruct (working_nothing_lost (l1 ++ [SocketRecovers c]) l2 c) as (new & E1 & _ & K); auto.
   - rewrite run_app. cbn. apply memz_removez_self.
   - rewrite run_app. cbn. exact C.
-  - unfold pending in E1 at 1. rewrite Q in E1. cbn in E1. rewrite app_nil_r in E1.
+  - rewrite (pending_idle c _ Q), app_nil_r in E1.
     eexists. rewrite E1, K; [reflexivity|]. rewrite run_app. cbn. exact M.
 Qed.
 
@@ -755,7 +873,7 @@ Proof.
 Qed.
 
 Lemma t1_recovered_ok_holds l c :
-  queue (run l) = [] -> t1_recovered_ok c l (recv c (run l)) = true.
+  idle (run l) = true -> t1_recovered_ok c l (recv c (run l)) = true.
 Proof.
   intros Q. unfold t1_recovered_ok.
   pose proof (split_last_fault_spec c l) as S. destruct (split_last_fault c l) as [a b].
@@ -763,10 +881,10 @@ Proof.
   destruct L as [->|(a' & x & -> & F)]; [reflexivity|].
   rewrite rev_app_distr. cbn [rev app].
   destruct (is_recover_of c x) eqn:R; [|reflexivity]. cbn [andb].
-  destruct x as [e ord|d|d|d|d|]; try discriminate. cbn in R. apply Z.eqb_eq in R. subst d.
+  destruct x as [e ord|d|d|d|d| |]; try discriminate. cbn in R. apply Z.eqb_eq in R. subst d.
   destruct (sp_conn (spec_from c spec_init (a' ++ [SocketRecovers c]))) eqn:SC; [|reflexivity].
   assert (M : memz c (clients (run a')) = true).
-  { unfold run. rewrite (Inv_memz _ _ _ (Inv_run c a' init spec_init (Inv_init c))).
+  { rewrite (Inv_memz _ _ _ (Inv_reach c a')).
     rewrite spec_from_app in SC. exact SC. }
   subst l. rewrite <- app_assoc in *. cbn [app] in *.
   destruct (recovered_complete a' b c M NF Q) as (before & ->). apply is_suffixb_app.
@@ -807,8 +925,8 @@ Proof.
   - apply IH. apply andb_true_iff in H. tauto.
 Qed.
 
-(* the two boolean predicates the harness evaluates on observed logs hold of the model's
-   own logs, for every step list and client *)
+(* the boolean predicates the harness evaluates on observed logs hold of the model's own
+   logs, for every step list and client *)
 Lemma t1_log_ok_holds l c : t1_log_ok c l (recv c (run l)) = true.
 Proof.
   unfold t1_log_ok. rewrite (subseqb_complete _ _ (recv_subseq_sent l c)). cbn [andb].
@@ -817,7 +935,7 @@ Proof.
 Qed.
 
 Lemma t1_complete_ok_holds l c :
-  queue (run l) = [] -> t1_complete_ok c l (recv c (run l)) = true.
+  idle (run l) = true -> t1_complete_ok c l (recv c (run l)) = true.
 Proof.
   intros Q. unfold t1_complete_ok. destruct (no_faults c l) eqn:NF; [|reflexivity].
   cbn [negb orb]. rewrite (healthy_complete l c NF Q).
@@ -826,31 +944,34 @@ Qed.
 
 (* --------------------------------------------------------------- non-vacuity *)
 
+(* hand-overs interleaved with the loop: client 3 connects between the snapshot of event 11
+   and its hand-over (and does not get it), client 2's write of 11 fails, ... *)
 Definition ex_steps : list step :=
-  [Connect 1; Connect 2; Emit 10 []; Connect 3; Emit 11 [3; 1]; RunCallback; SocketFails 2;
-   RunCallback; Disconnect 3; Emit 12 []; RunCallback; RunCallback; RunCallback; SocketRecovers 2;
-   Emit 13 []].
+  [Connect 1; Connect 2; Emit 10 []; HandOver; Connect 3; HandOver; Emit 11 [2; 1]; RunCallback;
+   HandOver; SocketFails 2; RunCallback; HandOver; RunCallback; RunCallback; Disconnect 3;
+   Emit 12 []; SocketRecovers 2; HandOver; HandOver; Emit 13 []].
 
 Example nonvac_healthy :
   no_faults 1 ex_steps = true /\ recv 1 (drained_run ex_steps) = [10; 11; 12; 13]
-  /\ recv 2 (drained_run ex_steps) = [10; 12; 13] /\ recv 3 (drained_run ex_steps) = []
+  /\ recv 2 (drained_run ex_steps) = [10; 12; 13] /\ att 2 (drained_run ex_steps) = [10; 11; 12; 13]
+  /\ recv 3 (drained_run ex_steps) = []
   /\ sent 2 ex_steps = [10; 11; 12; 13] /\ sent 3 ex_steps = [11].
 Proof. vm_compute. repeat split. Qed.
 
-(* client 2 of ex_steps fails, recovers while still connected, and gets the later event *)
 Example nonvac_recovered :
-  let l1 := [Connect 1; Connect 2; Emit 10 []; RunCallback; RunCallback; SocketFails 2; Emit 11 [];
+  let l1 := [Connect 1; Connect 2; Emit 10 []; HandOver; HandOver; RunCallback; RunCallback;
+             SocketFails 2; Emit 11 []; HandOver; HandOver; RunCallback; RunCallback] in
+  let l2 := [Emit 12 []; HandOver; RunCallback; HandOver; RunCallback; Emit 13 []; HandOver; HandOver;
              RunCallback; RunCallback] in
-  let l2 := [Emit 12 []; RunCallback; RunCallback; Emit 13 []; RunCallback; RunCallback] in
   memz 2 (clients (run l1)) = true /\ no_faults 2 l2 = true /\
-  queue (run (l1 ++ SocketRecovers 2 :: l2)) = [] /\
+  idle (run (l1 ++ SocketRecovers 2 :: l2)) = true /\
   recv 2 (run (l1 ++ SocketRecovers 2 :: l2)) = [10; 12; 13] /\
   t1_recovered_ok 2 (l1 ++ SocketRecovers 2 :: l2) [10; 12] = false.
 Proof. vm_compute. repeat split. Qed.
 
 Example nonvac_disconnect :
-  memz 3 (clients (run [Connect 1; Connect 2; Emit 10 []; Connect 3; Emit 11 [3; 1]; RunCallback;
-                        SocketFails 2; RunCallback])) = true.
+  memz 3 (clients (run [Connect 1; Connect 2; Emit 10 []; Connect 3; Emit 11 [3; 1]; HandOver;
+                        RunCallback; SocketFails 2; RunCallback])) = true.
 Proof. reflexivity. Qed.
 
 Example nonvac_nodup : NoDup (emitted ex_steps).
